@@ -9,6 +9,7 @@ S: the round trip on the implementation for all messages (k <= 10/12) in the lay
    b = 1..4 concatenated blocks, through inverse_encode, extract_message and project_word; exact n/k scaling of the
    last dimension; an error (not a wrong answer) for lengths that are not a multiple of the block size.
 """
+import math
 import contextlib
 import io
 
@@ -120,7 +121,14 @@ def run(ctx):
         # malformed lengths: an error, not a wrong answer
         for what, f, size in (("encoder", lambda v: quiet(enc, v), k), ("inverse_encode", lambda v: quiet(enc.inverse_encode, v), n)):
             if size > 1:
-                for shape in ((size + 1,), (2, size - 1), (2, 2 * size + 1)):
+                shapes_ = [(size + 1,), (2, size - 1), (2, 2 * size + 1)]
+                # rows whose length is not a whole number of blocks although the batch as a whole is (a flat reshape would go through)
+                for L_ in [g_ for g_ in range(2, 2 * size) if g_ % size and (size % g_ == 0 or (2 * g_) % size == 0)][:5]:
+                    B_ = size // math.gcd(L_, size)
+                    shapes_.append((B_, L_))
+                    if B_ % 2 == 0:
+                        shapes_.append((2, B_ // 2, L_))
+                for shape in shapes_:
                     v = torch.zeros(shape)
                     try:
                         out = f(v)
